@@ -64,7 +64,7 @@ class ScopeDoc:
 
 
 class Gen:
-    def __init__(self, seed: int, base: int = 0, *, with_frames=True, inherits=True, rec_sets=True, nested=True, applied=True, chains=True, with_shadowing_let=True, nested_rec=True):
+    def __init__(self, seed: int, base: int = 0, *, with_frames=True, inherits=True, rec_sets=True, nested=True, applied=True, chains=True, with_shadowing_let=True, nested_rec=True, dup_layers=True, same_layer_src=True):
         self.r = random.Random(seed)
         self.n = base
         self.uid = 0
@@ -76,6 +76,8 @@ class Gen:
         self.chains = chains
         self.with_shadowing_let = with_shadowing_let
         self.nested_rec = nested_rec
+        self.dup_layers = dup_layers
+        self.same_layer_src = same_layer_src
 
     def fresh(self):
         self.n += 1
@@ -102,7 +104,23 @@ class Gen:
             nm = r.choice(POOL)
             if all(b.name != nm for b in bs):
                 bs.append(self.mk(nm, "inherit"))
+        src = next((b for b in bs if b.name == "src" and b.kind == "set"), None)
+        if self.inherits and self.same_layer_src and src is not None and r.random() < 0.4:
+            # `inherit (src) a;` next to `src = { a = …; };` in the same (recursive) let layer
+            nm = r.choice(src.value.bindings).name
+            if all(b.name != nm for b in bs):
+                bs.insert(r.randrange(len(bs) + 1), self.mk(nm, "inherit_from", "src"))
         return Frame("let", bs)
+
+    def copy_layer(self, fr):
+        """A let layer with the same names and values as *fr* (fresh identities): textually identical content."""
+        def cp(b):
+            v = b.value
+            if isinstance(v, SetLit):
+                v = SetLit([cp(x) for x in v.bindings], v.rec)
+            return self.mk(b.name, b.kind, v)
+
+        return Frame("let", [cp(b) for b in fr.bindings])
 
     def with_env(self):
         r = self.r
@@ -114,6 +132,8 @@ class Gen:
         rec = self.rec_sets and r.random() < 0.4 and (top or self.nested_rec)
         bs = []
         used = set()
+        if rec and self.inherits and self.same_layer_src and r.random() < 0.2:
+            bs.append(self.mk("src", "set", SetLit([self.mk(k, "int", self.fresh()) for k in r.sample(POOL, r.randint(1, 2))])))
         # probes: k0.. refs; plus pool-named bindings (relevant for rec shadowing)
         for i in range(r.randint(1, 4)):
             x = r.random()
@@ -148,8 +168,11 @@ class Gen:
         r = self.r
         wrappers = []
         for _ in range(r.choice([0, 1, 1, 2, 2, 3, 4])):
+            lets = [w for w in wrappers if w.kind == "let"]
             if self.with_frames and r.random() < 0.3:
                 wrappers.append(self.with_env())
+            elif self.dup_layers and lets and r.random() < 0.15:
+                wrappers.append(self.copy_layer(r.choice(lets)))
             else:
                 wrappers.append(self.let_layer())
         if not self.with_shadowing_let:
